@@ -1175,6 +1175,36 @@ fn gen_case(rng: &mut Rng, thorough: bool, stats: &mut Stats, out: &mut Vec<Stri
 			out.push(gen_cb(rng, &g));
 			stats.hit("burst_rate");
 		}
+		if rng.chance(1, 30) {
+			// a paused track keeps stepping its volume / route-volume tweens: pause, retarget while paused, resume
+			g.sends += 1;
+			g.tracks += 1;
+			let (t, sd) = (g.tracks - 1, g.sends - 1);
+			out.push(format!("send f{} -", o32(0.0)));
+			out.push(format!("track -1 f{} 0 {}=f{} -", o32(0.0), sd, o32(-6.0)));
+			out.push(format!(
+				"play {} {} 4000 48000 f{} f{} f{} n=0~end 0 n=0 - imm",
+				t,
+				rng.pick(&["idx", "lr", "dc=3e800000"]),
+				o32(-12.0),
+				o64(1.0),
+				o32(0.0)
+			));
+			g.sounds += 1;
+			out.push(gen_cb(rng, &g));
+			out.push(format!("trk {} pause imm;{};lin", t, rng.pick(&[0u64, 1_000_000, 10_000_000])));
+			out.push(gen_cb(rng, &g));
+			out.push(format!("trk {} vol f{} imm;{};lin", t, o32(rng.pick(&[-20.0f32, 6.0, -60.0])), rng.pick(&[1_000_000u64, 20_000_000, 0])));
+			out.push(format!("trk {} send {} f{} imm;{};lin", t, sd, o32(rng.pick(&[0.0f32, -30.0])), rng.pick(&[1_000_000u64, 20_000_000])));
+			for _ in 0..rng.range(1, 3) {
+				out.push(gen_cb(rng, &g));
+			}
+			out.push(format!("trk {} resume imm;{};lin", t, rng.pick(&[0u64, 1_000_000, 10_000_000])));
+			for _ in 0..rng.range(2, 4) {
+				out.push(gen_cb(rng, &g));
+			}
+			stats.hit("burst_pause");
+		}
 		if g.mods && clocks_on && rng.chance(1, 30) {
 			// modulator → clock → sound chains: a tweener (moved by a clock-timed tween) drives a clock's speed and a
 			// sound's volume; a second sound waits for that clock
